@@ -394,6 +394,50 @@ def r18_2(ctx, repo):
                 'columns of one parameter are those whose published name '
                 'equals it (names == parameter), in the posterior\'s ID '
                 'order' % U(sel)[:60])
+    # population-level columns: position of the name in the full name list
+    # (or a name mask), never a position computed from the number of
+    # population parameters (posteriors lay their blocks out differently)
+    tops = [c for c in ast.walk(fn) if isinstance(c, ast.Call)
+            and U(c.func).endswith('DataArray') and any(
+                k.arg == 'dims' and 'individual' not in U(k.value)
+                and 'chain' in U(k.value) for k in c.keywords)]
+    for c in tops:
+        data = [k.value for k in c.keywords if k.arg == 'data']
+        data = data[0] if data else (c.args[0] if c.args else None)
+        if not (isinstance(data, ast.Subscript) and isinstance(
+                data.slice, ast.Tuple) and len(data.slice.elts) == 3):
+            continue
+        sel = data.slice.elts[2]
+        where = repo.loc(c, cls, fn.name)
+        ok_ = False
+        cur = getattr(c, '_parent', None)
+        while cur is not None and cur is not fn:
+            if isinstance(cur, ast.For) and isinstance(
+                    cur.iter, ast.Call) and U(cur.iter.func) == 'enumerate' \
+                    and cur.iter.args and U(cur.iter.args[0]) == NM \
+                    and isinstance(cur.target, ast.Tuple) and U(
+                        cur.target.elts[0]) == U(sel):
+                ok_ = True
+            cur = getattr(cur, '_parent', None)
+        if isinstance(sel, ast.Name):
+            d = [a for a in _defs(fn, sel.id) if a.lineno <= c.lineno]
+            if d and isinstance(d[-1].value, ast.Compare) and NM in U(
+                    d[-1].value):
+                ok_ = True
+        if isinstance(sel, ast.Compare) and NM in U(sel):
+            ok_ = True
+        if ok_:
+            ctx.ok(rule, where, construct,
+                   'population-level columns are addressed by the position '
+                   'of their name in the full name list')
+        else:
+            ctx.violation(
+                rule, where, construct, 'top-level column',
+                'the samples of a population-level parameter are read from '
+                'column `%s`, which is not the position of its name in the '
+                'posterior\'s name list: posteriors that order their blocks '
+                'differently (the filter posterior puts the population '
+                'parameters first) are mislabelled' % U(sel)[:40])
     # optimisation table
     cls2 = 'OptimisationController'
     fn2 = repo.method(cls2, 'run')
